@@ -10,10 +10,12 @@ ID = "C18"
 LEVEL = "exploration"
 RULE = ("A case is (up to 4 hosts, each good or of one bad-reply class: random bytes, valid envelope with short body, "
         "valid envelope with non-text body, name without separators, non-hex type, XML without body/device, XML device "
-        "without attributes, XML with non-numeric port, XML pointing at a closed port; 1-6 copies per host from either "
+        "without attributes, XML with non-numeric port, XML pointing at a closed port, XML declaring unknown / multi-byte / EBCDIC "
+        "encodings, SSDP/JSON/HTML text, empty and one-byte datagrams; 1-6 copies per host from either "
         "source port; the arrival time of every copy, hence the interleaving across hosts; some copies after the "
         "listening window). Part 'interleavings' enumerates every arrival order of the copies for <=3 hosts x <=2 "
-        "copies; 'random' draws larger multisets. Distinct = distinct (host classes, arrival sequence); non-trivial = "
+        "copies; 'random' draws larger multisets, one fifth of them with auto_connect=True against V2 devices that answer "
+        "quickly, slowly or never while late datagrams from known and new addresses keep arriving. Distinct = distinct (host classes, arrival sequence); non-trivial = "
         ">= 2 datagrams delivered.")
 ASSUMPTIONS = [
     "an exception escaping datagram_received does not close a datagram transport (CPython 3.12 selector_events); the "
@@ -31,7 +33,8 @@ BAD = ["random", "short_body", "nontext_body", "no_separators", "nonhex_type", "
        "xml_bad_port", "xml_closed_port", "empty", "marker_only_v2", "marker_only_v3", "bad_cipher_len",
        # not a Midea reply at all
        "xml_nul_padded", "xml_trailing_garbage", "xml_leading_space", "xml_bom", "ssdp_text", "json_text", "html_text",
-       "zero_length", "one_byte_marker", "xml_entity", "v3_header_only", "huge"]
+       "zero_length", "one_byte_marker", "xml_entity", "v3_header_only", "huge",
+       "xml_unknown_encoding", "xml_utf16_label", "xml_ebcdic_label", "xml_pi_only"]
 
 
 def bad_reply(kind, h, seed):
@@ -58,6 +61,14 @@ def bad_reply(kind, h, seed):
         return b""
     if kind == "one_byte_marker":
         return bytes([0x5A if seed % 2 else 0x83])
+    if kind == "xml_unknown_encoding":
+        return b'<?xml version="1.0" encoding="x-vendor-8bit"?><a><body><device port="6444"/></body></a>'
+    if kind == "xml_utf16_label":
+        return b'<?xml version="1.0" encoding="utf-16"?><a><body><device port="6444"/></body></a>'
+    if kind == "xml_ebcdic_label":
+        return b'<?xml version="1.0" encoding="cp037"?><a><body><device port="6444"/></body></a>'
+    if kind == "xml_pi_only":
+        return b'<?xml version="1.0" encoding="big5"?>'
     if kind == "xml_entity":
         return b'<!DOCTYPE a [<!ENTITY e "x">]><a><body><device port="&e;"/></body></a>'
     if kind == "v3_header_only":
@@ -121,10 +132,23 @@ def run(plan):
         if h["cls"] != "good":
             w.fire("udp_bad_reply[" + h["cls"] + "]")
         w.net.add_udp_host(h["ip"], RefHost(h["ip"], replies))
+        if plan.get("auto") and h["cls"] == "good" and h.get("tcp") in ("ok", "slow", "silent", "hang"):
+            from refmodel.device import RefDevice
+            d = RefDevice(version=2, device_id=h["device_id"])
+            if h["tcp"] == "slow":
+                d.default_directive = {"lat": 1.9}
+            elif h["tcp"] == "silent":
+                d.default_directive = {"drop": True}
+            elif h["tcp"] == "hang":
+                d.conn_script = [["hang", 0]] * 4
+            w.net.listen(h["ip"], h["port"], d)
+    auto = bool(plan.get("auto"))
+    if auto:
+        w.fire("auto_connect_run")
 
     async def main(w):
         D = w.ns.discover.Discover
-        o = await capture(w, D.discover(auto_connect=False))
+        o = await capture(w, D.discover(auto_connect=auto))
         if o.kind != "ok":
             res.fail(f"discover raised {o.exc_type}", f"classes {[h['cls'] for h in plan['hosts']]}: {o.exc!r}")
             return
@@ -151,7 +175,7 @@ def run(plan):
         if plan.get("twice"):
             for hi, h in enumerate(plan["hosts"]):
                 w.net.udp_hosts[h["ip"]].answered = False
-            o2 = await capture(w, D.discover(auto_connect=False))
+            o2 = await capture(w, D.discover(auto_connect=auto))
             if o2.kind != "ok":
                 res.fail(f"second discover raised {o2.exc_type}", repr(o2.exc))
                 return
@@ -233,7 +257,19 @@ def space(tier):
             if rng.random() < 0.15:
                 # a copy landing exactly when the listening window ends, or one tick to either side
                 h["copies"].append([5.0 + rng.choice([-1, 0, 0, 1]) / (1 << 20), 6445])
-        return {"hosts": hosts, "twice": rng.random() < 0.3}
+        p = {"hosts": hosts, "twice": rng.random() < 0.3}
+        if rng.random() < 0.2:
+            # auto-connect: good V2 air conditioners are contacted after the window; some answer slowly or never, so
+            # parse tasks are still pending while late datagrams (also from new addresses) keep arriving
+            p["auto"] = True
+            for h in hosts:
+                if h["cls"] == "good":
+                    h["version"] = 2
+                    h["name"] = "net_" + rng.choice(["ac", "AC"]) + "_" + h["name"].split("_", 2)[2]
+                    h["tcp"] = rng.choice(["ok", "slow", "silent", "silent", "refused", "hang"])
+                    if rng.random() < 0.3:
+                        h["copies"] = [[rng.choice([5.5, 6.0, 7.5, 9.0, 13.5]), 6445]]     # only late copies
+        return p
     sp.add("random", 14000 if tier == "quick" else 1_500_000, rnd)
 
     def each_bad(j, rng):
